@@ -292,7 +292,11 @@ func (i *Inst) RunHostile(s *HsScript, tw *TraceWriter, rng *rand.Rand) error {
 	case "authorization":
 		val := map[string]string{"bare-ntlm": "NTLM", "bare-negotiate": "Negotiate", "bare-basic": "Basic", "embedded-scheme": "xNTLM", "one-char": "N",
 			"long-garbage": "NTLM " + strings.Repeat("A", 70000), "ntlm-garbage": "NTLM " + base64.StdEncoding.EncodeToString(randBytes(rng, 40)),
-			"basic-notbase64": "Basic %%%%", "negotiate-garbage": "Negotiate " + base64.StdEncoding.EncodeToString(randBytes(rng, 200)), "nul-bytes": "NTLM \x01\x02"}[s.Cls]
+			"basic-notbase64": "Basic %%%%", "negotiate-garbage": "Negotiate " + base64.StdEncoding.EncodeToString(randBytes(rng, 200)), "nul-bytes": "NTLM \x01\x02",
+			// credentials the authentication service cannot even be asked about (they do not fit its message format), and
+			// right credentials while the authentication service is away
+			"basic-nonutf8":           "Basic " + base64.StdEncoding.EncodeToString([]byte([]string{"7:pw-7\xff", "7\xc0:pw-7", "\xff\xfe:\xfd"}[rng.Intn(3)])),
+			"basic-authservice-away": "Basic " + base64.StdEncoding.EncodeToString([]byte("7:pw-7"))}[s.Cls]
 		c, err := i.hdial()
 		if err != nil {
 			return err
